@@ -72,6 +72,8 @@ type Prog struct {
 	// Calls: the builder calls of MsgCalls.tla. When present the message is built by executing them;
 	// Parts / Embeds / Atts then hold the message the specification expects them to leave behind.
 	Calls []string `json:"calls"`
+	// Mw: a middleware of the caller ("attach": adds an attachment once, "body": replaces the first body part once)
+	Mw string `json:"mw"`
 }
 
 // Fault describes a render fault (C12).
@@ -806,6 +808,10 @@ func Build(p Prog, seed int64, failSlot int, failWhen string, tmpdir string) (*B
 		m = fresh
 		b.Msg = fresh
 	}
+	if p.Mw != "" {
+		m = attachMiddleware(m, p.Mw)
+		b.Msg = m
+	}
 	if p.Smime.Key != "" {
 		ms, err := Materials()
 		if err != nil {
@@ -829,6 +835,50 @@ func Build(p Prog, seed int64, failSlot int, failWhen string, tmpdir string) (*B
 	}
 	sort.Strings(b.TopNames)
 	return b, nil
+}
+
+// verifMiddleware is a middleware of the caller that changes what is rendered (idempotent).
+type verifMiddleware struct{ kind string }
+
+func (v verifMiddleware) Type() mail.MiddlewareType { return "verif" }
+
+func (v verifMiddleware) Handle(m *mail.Msg) *mail.Msg {
+	switch v.kind {
+	case "attach":
+		for _, f := range m.GetAttachments() {
+			if f.Name == "from-middleware.txt" {
+				return m
+			}
+		}
+		m.AttachReadSeeker("from-middleware.txt", bytes.NewReader([]byte("added by a middleware\r\n")))
+	case "body":
+		if ps := m.GetParts(); len(ps) > 0 {
+			ps[0].SetContent("body as a middleware left it\r\n")
+		}
+	}
+	return m
+}
+
+// attachMiddleware returns a copy of the message options with the middleware installed: a Msg takes middlewares
+// only at construction, so the message is rebuilt around the same content.
+func attachMiddleware(m *mail.Msg, kind string) *mail.Msg {
+	n := mail.NewMsg(mail.WithMiddleware(verifMiddleware{kind}), mail.WithEncoding(mail.Encoding(m.Encoding())))
+	_ = n.From("sender@from.test")
+	_ = n.To("rcpt@to.test")
+	n.SetDateWithValue(time.Date(2024, 5, 17, 10, 11, 12, 0, time.UTC))
+	n.SetMessageIDWithValue("verif.mime@from.test")
+	n.Subject("render scenario")
+	for i, p := range m.GetParts() {
+		c, _ := p.GetContent()
+		if i == 0 {
+			n.SetBodyString(p.GetContentType(), string(c))
+		} else {
+			n.AddAlternativeString(p.GetContentType(), string(c))
+		}
+	}
+	n.SetAttachments(m.GetAttachments())
+	n.SetEmbeds(m.GetEmbeds())
+	return n
 }
 
 // runCalls executes the builder calls of MsgCalls.tla on m (after removing what the list-based
